@@ -114,7 +114,8 @@ def judge_cash(ctx, crit, x, target, out):
     lo, hi, mean = pl.amin(0), pl.amax(0), pl.to(F64).mean(0)
     prec = 1e-6 if default else 0.0
     scale = float(pl.abs().max()) + 1e-30
-    slack = prec + 64 * e * scale
+    # closed forms go through exp / log of O(1) quantities (e.g. -log(mean exp(-a x)) / a): their rounding error is absolute, eps / a
+    slack = prec + 64 * e * (scale + 1.0 + 1.0 / float(getattr(crit, "a", 1.0)))
     ctx.seen("cash.bounds")
     okb = bool(((out >= lo - slack) & (out <= hi + slack)).all())
     if okb and isinstance(crit, RISK_AVERSE):
@@ -131,7 +132,7 @@ def judge_cash(ctx, crit, x, target, out):
         got = crit(const_s)
         h = max(prec, 1e-4 * scale, 1e-6)
         slope = ((crit(const_s + h) - crit(const_s - h)).abs() / (2 * h)).to(F64)
-    tol = slope * (2 * prec + 64 * e * scale) + (pl.shape[0] + 64) * e * (want.abs().to(F64) + got.abs().to(F64)) + 1e-300
+    tol = slope * (2 * prec + 64 * e * (scale + 1.0 + 1.0 / float(getattr(crit, "a", 1.0)))) + (pl.shape[0] + 64) * e * (want.abs().to(F64) + got.abs().to(F64)) + 1e-300
     ok = bool(((got.to(F64) - want.to(F64)).abs() <= tol).all())
     ctx.check("cash.equivalent", ok, "cash.default_search_mixes_columns" if (default and multi) else "not_equivalent",
               f"{name}: loss(constant sample at cash) != loss(sample): {got.reshape(-1)[:3].tolist()} vs {want.reshape(-1)[:3].tolist()}", sig=sig,
@@ -201,7 +202,12 @@ def _mk_price(orig):
         with torch.no_grad():
             outs = torch.stack([-c[2] for c in rec["cash"]])
             want = outs[0] if n_times == 1 else outs.mean(0)
-            ok = bit_equal(out.detach(), want) if n_times == 1 else bool(((out.detach() - want).abs() <= 8 * float(torch.finfo(out.dtype).eps) * (want.abs() + 1)).all())
+            if n_times == 1:
+                ok = bit_equal(out.detach(), want)
+            elif not bool(torch.isfinite(want).all()):
+                ok = not bool(torch.isfinite(out).all())  # non-finite hedges (C18) propagate; nothing to compare
+            else:
+                ok = bool(((out.detach() - want).abs() <= 8 * float(torch.finfo(out.dtype).eps) * (want.abs() + 1)).all())
             # the tensors handed to cash are the hedge portfolio and the derivative's payoff (clauses included) of the last simulation
             pf = self.compute_portfolio(derivative, hedge)
             pay = derivative.payoff()
@@ -302,6 +308,9 @@ def drv_price(ctx, k, rng):
     except (ValueError, RuntimeError) as ex:
         if "lower < upper" in str(ex) or "max_iter" in str(ex):
             return
+        if "NaN to integer" in str(ex):
+            ctx.skipped("price.shift_equivariant", "non_finite_portfolio_see_C18")  # quadratic_cvar on a NaN P&L (NaN hedge, C18)
+            return
         raise
     # adding a constant k to the payoff (through a clause) raises the price by exactly k
     kk = float(pick(rng, [0.25, 1.0, -0.5]))
@@ -312,6 +321,9 @@ def drv_price(ctx, k, rng):
         p1 = hedger.price(derivative, hedge, n_paths=n_paths, n_times=n_times)
     except (ValueError, RuntimeError) as ex:
         if "lower < upper" in str(ex) or "max_iter" in str(ex):
+            return
+        if "NaN to integer" in str(ex):
+            ctx.skipped("price.shift_equivariant", "non_finite_portfolio_see_C18")  # quadratic_cvar on a NaN P&L (NaN hedge, C18)
             return
         raise
     mon = "price.shift_equivariant"
